@@ -471,9 +471,35 @@ pub fn run_c16(_tier: &str, sink: &Sink) -> DOut {
             }
         }
     });
+    // numeric extension (reference statement only): multi-digit and limit components
+    let nums = [0u64, 1, 2, 9, 10, 11, 100, MAX_SAFE];
+    let mut ext: Vec<Version> = vec![];
+    for a in nums {
+        for b in nums {
+            for c in nums {
+                for t in ["", "a", "10"] {
+                    ext.push(ver(a, b, c, t));
+                }
+            }
+        }
+    }
+    let m = ext.len();
+    let step = 1;
+    let ext_pairs = AtomicU64::new(0);
+    (0..m).into_par_iter().for_each(|i| {
+        let mut cnt = 0;
+        let mut j = i % step;
+        while j < m {
+            check_c16_pair(&ext[i], &ext[j], None, sink);
+            cnt += 1;
+            j += step;
+        }
+        ext_pairs.fetch_add(cnt, AO::Relaxed);
+    });
     let mut counters = BTreeMap::new();
-    counters.insert("versions".into(), n as u64);
-    counters.insert("ordered_pairs".into(), (n * n) as u64);
+    counters.insert("versions".into(), (n + m) as u64);
+    counters.insert("ordered_pairs".into(), (n * n) as u64 + ext_pairs.load(AO::Relaxed));
+    counters.insert("numeric_extension_pairs".into(), ext_pairs.load(AO::Relaxed));
     counters.insert("nontrivial".into(), nontrivial.load(AO::Relaxed));
     let mut extra = BTreeMap::new();
     extra.insert("pairs_per_expected_answer".into(), json!({"none": per_kind[0].load(AO::Relaxed), "major": per_kind[1].load(AO::Relaxed), "minor": per_kind[2].load(AO::Relaxed), "patch": per_kind[3].load(AO::Relaxed), "premajor": per_kind[4].load(AO::Relaxed), "preminor": per_kind[5].load(AO::Relaxed), "prepatch": per_kind[6].load(AO::Relaxed), "prerelease": per_kind[7].load(AO::Relaxed)}));
